@@ -296,10 +296,21 @@ class Forest:
             result = results.pop()
             self.result.merge(result)
 
+    def _check_index(self, idx):
+        # Tree 0 always exists. Without the check an index past the end
+        # would silently wrap around to some other tree.
+        if idx > 0 and idx >= self.solutions:
+            raise IndexError(
+                f"Forest index {idx} out of range. "
+                f"The forest has {self.solutions} tree(s)."
+            )
+
     def get_tree(self, idx=0):
+        self._check_index(idx)
         return LazyTree(self.result, idx)
 
     def get_nonlazy_tree(self, idx=0):
+        self._check_index(idx)
         return Tree(self.result, idx)
 
     def get_first_tree(self):
